@@ -513,4 +513,89 @@ def rule_only(ctx):
                          construct=f"{p.fn_of(c)}:{d}")
 
 
-RULES = [rule_res, rule_sink, rule_cwd, rule_only]
+def rule_memo(ctx):
+    p = ctx.p
+    ctx.rule("C02.MEMO", "get_paths computes its result from the session's present state: a result remembered across calls must be keyed by, or dropped at every change of, the session state it was computed from")
+    f = p.method("Server", "get_paths")
+    conn = f.args.args[1].arg if len(f.args.args) > 1 and f.args.args[0].arg in ("self", "cls") else f.args.args[0].arg
+
+    def persistent(e, depth=3):
+        """name of the session/server attribute an expression is stored in (None for locals and fresh values)"""
+        if depth < 0:
+            return None
+        if isinstance(e, ast.Attribute):
+            base = e
+            while isinstance(base, ast.Attribute):
+                base = base.value
+            if isinstance(base, ast.Name) and base.id in (conn, "self", "cls"):
+                return src(e)
+            return None
+        if isinstance(e, ast.Call) and isinstance(e.func, ast.Name) and e.func.id == "getattr" and len(e.args) >= 2 and isinstance(e.args[1], ast.Constant) \
+                and isinstance(e.args[0], ast.Name) and e.args[0].id in (conn, "self", "cls"):
+            return f"{e.args[0].id}.{e.args[1].value}"
+        if isinstance(e, ast.Call) and isinstance(e.func, ast.Attribute) and e.func.attr in ("get", "setdefault", "pop"):
+            return persistent(e.func.value, depth - 1)
+        if isinstance(e, ast.Subscript):
+            return persistent(e.value, depth - 1)
+        if isinstance(e, ast.Name):
+            if e.id in p.module_level_names("server.py"):
+                return e.id
+            defs = [d_[1] for d_ in local_defs(f, e.id) if d_[0] == "assign"]
+            for d_ in defs:
+                r = persistent(d_, depth - 1)
+                if r:
+                    return r
+        return None
+    def element_of_store(e, depth=3):
+        """the persistent container `e` is an element of (subscript / .get / .setdefault), following local names"""
+        if depth < 0:
+            return None
+        if isinstance(e, ast.Subscript):
+            return persistent(e.value)
+        if isinstance(e, ast.Call) and isinstance(e.func, ast.Attribute) and e.func.attr in ("get", "setdefault", "pop"):
+            return persistent(e.func.value)
+        if isinstance(e, ast.Name):
+            for d_ in local_defs(f, e.id):
+                if d_[0] == "assign":
+                    r_ = element_of_store(d_[1], depth - 1)
+                    if r_:
+                        return r_
+        return None
+    memos = []
+    for r in walk_no_nested(f):
+        if isinstance(r, ast.Return) and r.value is not None:
+            vals = r.value.elts if isinstance(r.value, ast.Tuple) else [r.value]
+            for v in vals:
+                m = element_of_store(v)
+                if m:
+                    memos.append((r, v, m))
+    ctx.ob("C02.MEMO", f, "every value get_paths returns is computed in that call (no remembered result)" if not memos else
+           f"get_paths returns a remembered result from `{memos[0][2]}`", True)
+    if not memos:
+        return
+    r, v, store = memos[0]
+    attr = store.split(".")[-1]
+    # the session state the resolution reads
+    deps = sorted({x.attr for x in walk_no_nested(f) if isinstance(x, ast.Attribute) and isinstance(x.ctx, ast.Load) and isinstance(x.value, ast.Name) and x.value.id == conn and x.attr != attr})
+    key_names = set()
+    for x in walk_no_nested(f):
+        if isinstance(x, ast.Subscript) and persistent(x.value) == store:
+            k = deep_expand(p, x.slice, f)
+            key_names |= {y.attr for y in ast.walk(k) if isinstance(y, ast.Attribute)} | {y.id for y in ast.walk(k) if isinstance(y, ast.Name)}
+    for dep in deps:
+        if dep in key_names:
+            ctx.ob("C02.MEMO", r, f"the remembered result is keyed by session.{dep}", True)
+            continue
+        # every store of that session field must drop the memo in the same function
+        for m_ in p.methods("Server").values():
+            for st in walk_no_nested(m_):
+                if isinstance(st, ast.Attribute) and isinstance(st.ctx, ast.Store) and st.attr == dep and m_.name != "__init__":
+                    drops = any((isinstance(c, ast.Call) and is_method_call(c, "clear") and last_attr(c.func.value) == attr)
+                                or (isinstance(c, ast.Attribute) and isinstance(c.ctx, (ast.Store, ast.Del)) and c.attr == attr) for c in walk_no_nested(m_))
+                    ctx.ob("C02.MEMO", st, f"{m_.name}: changes session.{dep} and drops the remembered resolutions", drops,
+                           f"get_paths returns results remembered in `{store}` keyed without session.{dep}, and {m_.name} changes session.{dep} without dropping them: "
+                           f"a path argument seen before keeps resolving against the previous {dep} (another user's base directory / the previous working directory)",
+                           construct=f"memo:{m_.name}:{dep}", function=p.qualname(m_))
+
+
+RULES = [rule_res, rule_sink, rule_cwd, rule_only, rule_memo]
